@@ -253,6 +253,10 @@ class Ctx:
             "notes": self.notes,
             "known_findings_hit": sorted(self.known_hit),
         }
+        if not self.proof["obligations"]:
+            # no theorem registered (yet): fall back to the exploration-style keys only
+            for k in ("obligations", "discharged"):
+                cov.pop(k)
         ev = {
             "property_id": self.prop,
             "tier": self.tier,
